@@ -473,13 +473,27 @@ type MtreeEntry struct {
 	SHA256      []byte
 }
 
+// mtreeQuote writes what would end or split a word of an mtree(5) line -
+// blanks, control characters, and the escape character itself - as \ooo.
+func mtreeQuote(s string) string {
+	var b strings.Builder
+	for i := 0; i < len(s); i++ {
+		if c := s[i]; c <= ' ' || c == '\\' || c == 0x7f {
+			fmt.Fprintf(&b, "\\%03o", c)
+		} else {
+			b.WriteByte(c)
+		}
+	}
+	return b.String()
+}
+
 func (me *MtreeEntry) WriteTo(w io.Writer) (int64, error) {
 	switch me.Type {
 	case files.TypeDir, files.TypeImplicitDir:
 		n, err := fmt.Fprintf(
 			w,
 			"./%s time=%d.0 mode=%o type=dir\n",
-			me.Destination,
+			mtreeQuote(me.Destination),
 			me.Time,
 			me.Mode,
 		)
@@ -488,17 +502,17 @@ func (me *MtreeEntry) WriteTo(w io.Writer) (int64, error) {
 		n, err := fmt.Fprintf(
 			w,
 			"./%s time=%d.0 mode=%o type=link link=%s\n",
-			me.Destination,
+			mtreeQuote(me.Destination),
 			me.Time,
 			me.Mode,
-			me.LinkSource,
+			mtreeQuote(me.LinkSource),
 		)
 		return int64(n), err
 	default:
 		n, err := fmt.Fprintf(
 			w,
 			"./%s time=%d.0 mode=%o size=%d type=file md5digest=%x sha256digest=%x\n",
-			me.Destination,
+			mtreeQuote(me.Destination),
 			me.Time,
 			me.Mode,
 			me.Size,
